@@ -99,3 +99,42 @@ package outbound
 //@   loop 3
 //@     invariant forall f int {condHolds(f)} :: 0 <= f && f < $idx2 ==> condHolds(f)
 //@     invariant !subFilterHit && (forall p int {vh($idx2, p)} :: 0 <= p && p < $idx ==> !vh($idx2, p))
+
+// C14 (group membership): the members are the pool nodes that satisfy at least one filter line, each once,
+// in pool order, each with the annotation of the FIRST line it satisfies; no filters = the whole pool.
+//   lh(i, j): pool node i satisfies line j (bound to the filterHit results); src(t): pool index of member t;
+//   pos(i): member index of pool node i; an(i): the annotation built for pool node i.
+//@ func (*DialerSet).FilterAndAnnotate
+//@   nonilcheck
+//@   dyncalls noeffect
+//@   trustframe
+//@   ghostfn lh(i int, j int) bool
+//@   ghostfn src(t int) int
+//@   ghostfn pos(i int) int
+//@   ghostfn an(i int) ref
+//@   at call filterHit#1 assert a1 == s.dialers[$idx2] && a2 == filters[$idx]
+//@   at call filterHit#1 assume-after nth(result, 1) == nil ==> (nth(result, 0) <==> lh($idx2, $idx))
+//@   at call NewAnnotation#1 assert a0 == annotations[$idx] && lh($idx2, $idx) && (forall q int {lh($idx2, q)} :: 0 <= q && q < $idx ==> !lh($idx2, q))
+//@   at call NewAnnotation#1 assume-after nth(result, 0) == an($idx2)
+//@   at call builtin:append#1 assert a1[0] == s.dialers[$idx2]
+//@   at call builtin:append#1 assume-after src(len(a0)) == $idx2 && pos($idx2) == len(a0)
+//@   ensures len(filters) == 0 && len(annotations) == 0 ==> err == nil && dialers == s.dialers && len(filterAnnotations) == len(s.dialers)
+//@   ensures len(filters) > 0 && err == nil ==> len(dialers) == len(filterAnnotations)
+//@   ensures len(filters) > 0 && err == nil ==> (forall t int {dialers[t]} :: 0 <= t && t < len(dialers) ==> 0 <= src(t) && src(t) < len(s.dialers) && dialers[t] == s.dialers[src(t)] && filterAnnotations[t] == an(src(t)) && (exists j int {lh(src(t), j)} :: 0 <= j && j < len(filters) && lh(src(t), j)))
+//@   ensures len(filters) > 0 && err == nil ==> (forall t int, u int {src(t), src(u)} :: 0 <= t && t < u && u < len(dialers) ==> src(t) < src(u))
+//@   ensures len(filters) > 0 && err == nil ==> (forall i int, j int {lh(i, j)} :: 0 <= i && i < len(s.dialers) && 0 <= j && j < len(filters) && lh(i, j) ==> 0 <= pos(i) && pos(i) < len(dialers) && src(pos(i)) == i)
+//@   loop 2
+//@     invariant dialers == nil || fresh(dialers)
+//@     invariant filterAnnotations == nil || fresh(filterAnnotations)
+//@     invariant len(dialers) == len(filterAnnotations)
+//@     invariant forall t int {dialers[t]} :: 0 <= t && t < len(dialers) ==> 0 <= src(t) && src(t) < $idx && dialers[t] == s.dialers[src(t)] && filterAnnotations[t] == an(src(t)) && (exists j int {lh(src(t), j)} :: 0 <= j && j < len(filters) && lh(src(t), j))
+//@     invariant forall t int, u int {src(t), src(u)} :: 0 <= t && t < u && u < len(dialers) ==> src(t) < src(u)
+//@     invariant forall i int, j int {lh(i, j)} :: 0 <= i && i < $idx && 0 <= j && j < len(filters) && lh(i, j) ==> 0 <= pos(i) && pos(i) < len(dialers) && src(pos(i)) == i
+//@   loop 3
+//@     invariant dialers == nil || fresh(dialers)
+//@     invariant filterAnnotations == nil || fresh(filterAnnotations)
+//@     invariant len(dialers) == len(filterAnnotations)
+//@     invariant forall t int {dialers[t]} :: 0 <= t && t < len(dialers) ==> 0 <= src(t) && src(t) < $idx2 && dialers[t] == s.dialers[src(t)] && filterAnnotations[t] == an(src(t)) && (exists j int {lh(src(t), j)} :: 0 <= j && j < len(filters) && lh(src(t), j))
+//@     invariant forall t int, u int {src(t), src(u)} :: 0 <= t && t < u && u < len(dialers) ==> src(t) < src(u)
+//@     invariant forall i int, j int {lh(i, j)} :: 0 <= i && i < $idx2 && 0 <= j && j < len(filters) && lh(i, j) ==> 0 <= pos(i) && pos(i) < len(dialers) && src(pos(i)) == i
+//@     invariant forall q int {lh($idx2, q)} :: 0 <= q && q < $idx ==> !lh($idx2, q)
